@@ -34,6 +34,28 @@ type env struct {
 	mu     sync.Mutex
 	faults []Fault
 	fired  int
+	// cancelAfter, when set, is called by the next wrapped operation after it
+	// performed its effect successfully (cancellation "during" an operation
+	// that does not consult the context).
+	cancelAfter func()
+}
+
+// ctxFail records that a gated operation returned the context's error.
+func (e *env) ctxFail() {
+	e.mu.Lock()
+	e.fired++
+	e.mu.Unlock()
+}
+
+// after runs the armed cancel-after hook, once.
+func (e *env) after() {
+	e.mu.Lock()
+	f := e.cancelAfter
+	e.cancelAfter = nil
+	e.mu.Unlock()
+	if f != nil {
+		f()
+	}
 }
 
 // cls classifies the result of a destination write.
@@ -78,6 +100,7 @@ func (w *srcW) Fetch(ctx context.Context, d ocispec.Descriptor) (io.ReadCloser, 
 	w.e.tr.Emit(map[string]any{"e": "fetchB", "n": n, "man": man})
 	w.e.s.Gate("fetch", n)
 	if err := ctx.Err(); err != nil {
+		w.e.ctxFail()
 		w.e.tr.Emit(map[string]any{"e": "fetchE", "n": n, "man": man, "err": true, "why": "ctx"})
 		return nil, err
 	}
@@ -87,6 +110,7 @@ func (w *srcW) Fetch(ctx context.Context, d ocispec.Descriptor) (io.ReadCloser, 
 	}
 	rc, err := w.und.Fetch(ctx, d)
 	w.e.tr.Emit(map[string]any{"e": "fetchE", "n": n, "man": man, "err": err != nil, "why": ""})
+	w.e.after()
 	return rc, err
 }
 
@@ -98,6 +122,7 @@ func (w *srcW) Resolve(ctx context.Context, ref string) (ocispec.Descriptor, err
 	w.e.tr.Emit(map[string]any{"e": "sresolveB", "ref": ref})
 	w.e.s.Gate("sresolve", 0)
 	if err := ctx.Err(); err != nil {
+		w.e.ctxFail()
 		w.e.tr.Emit(map[string]any{"e": "sresolveE", "ref": ref, "n": 0, "err": true})
 		return ocispec.Descriptor{}, err
 	}
@@ -115,6 +140,7 @@ func (w *srcW) Predecessors(ctx context.Context, d ocispec.Descriptor) ([]ocispe
 	w.e.tr.Emit(map[string]any{"e": "predB", "n": n})
 	w.e.s.Gate("pred", n)
 	if err := ctx.Err(); err != nil {
+		w.e.ctxFail()
 		w.e.tr.Emit(map[string]any{"e": "predE", "n": n, "err": true, "res": []int{}})
 		return nil, err
 	}
@@ -128,6 +154,7 @@ func (w *srcW) Predecessors(ctx context.Context, d ocispec.Descriptor) ([]ocispe
 		res = append(res, w.e.g.NodeOf(p))
 	}
 	w.e.tr.Emit(map[string]any{"e": "predE", "n": n, "err": err != nil, "res": vh.Ints(res)})
+	w.e.after()
 	return ps, err
 }
 
@@ -151,6 +178,28 @@ func (w *dstW) has() []int {
 	return vh.Ints(out)
 }
 
+// dangling lists [parent, child] pairs: the parent is present but the child's
+// descriptor, exactly as the parent lists it, does not exist in the destination.
+func (w *dstW) dangling() [][]int {
+	out := [][]int{}
+	bg := context.Background()
+	for k := 1; k <= w.e.g.N; k++ {
+		if ok, _ := w.und.Exists(bg, w.e.g.Descs[k]); !ok {
+			continue
+		}
+		for i, d := range w.e.g.EdgeDescs(k) {
+			to := w.e.g.Nodes[k].Edges[i].To
+			if w.e.g.Nodes[to].Kind == "foreign" {
+				continue
+			}
+			if ok, _ := w.und.Exists(bg, d); !ok {
+				out = append(out, []int{k, to})
+			}
+		}
+	}
+	return out
+}
+
 func (w *dstW) Fetch(ctx context.Context, d ocispec.Descriptor) (io.ReadCloser, error) {
 	return w.und.Fetch(ctx, d)
 }
@@ -160,6 +209,7 @@ func (w *dstW) Exists(ctx context.Context, d ocispec.Descriptor) (bool, error) {
 	w.e.tr.Emit(map[string]any{"e": "existsB", "n": n})
 	w.e.s.Gate("exists", n)
 	if err := ctx.Err(); err != nil {
+		w.e.ctxFail()
 		w.e.tr.Emit(map[string]any{"e": "existsE", "n": n, "r": false, "err": true, "why": "ctx"})
 		return false, err
 	}
@@ -169,6 +219,7 @@ func (w *dstW) Exists(ctx context.Context, d ocispec.Descriptor) (bool, error) {
 	}
 	ok, err := w.und.Exists(ctx, d)
 	w.e.tr.Emit(map[string]any{"e": "existsE", "n": n, "r": ok, "err": err != nil, "why": ""})
+	w.e.after()
 	return ok, err
 }
 
@@ -177,6 +228,7 @@ func (w *dstW) Push(ctx context.Context, d ocispec.Descriptor, r io.Reader) erro
 	w.e.tr.Emit(map[string]any{"e": "pushB", "n": n})
 	w.e.s.Gate("push", n)
 	if err := ctx.Err(); err != nil {
+		w.e.ctxFail()
 		w.e.tr.Emit(map[string]any{"e": "pushE", "n": n, "r": "ctx", "has": w.has()})
 		return err
 	}
@@ -197,6 +249,7 @@ func (w *dstW) Push(ctx context.Context, d ocispec.Descriptor, r io.Reader) erro
 		return ErrInjected
 	}
 	w.e.tr.Emit(map[string]any{"e": "pushE", "n": n, "r": cls(err), "has": w.has()})
+	w.e.after()
 	return err
 }
 
@@ -209,6 +262,7 @@ func (w *dstW) Tag(ctx context.Context, d ocispec.Descriptor, ref string) error 
 	w.e.tr.Emit(map[string]any{"e": "tagB", "n": n, "ref": ref})
 	w.e.s.Gate("tag", n)
 	if err := ctx.Err(); err != nil {
+		w.e.ctxFail()
 		w.e.tr.Emit(map[string]any{"e": "tagE", "n": n, "ref": ref, "err": true})
 		return err
 	}
@@ -229,6 +283,7 @@ func (w *dstRefW) PushReference(ctx context.Context, d ocispec.Descriptor, r io.
 	w.e.tr.Emit(map[string]any{"e": "pushB", "n": n, "ref": ref})
 	w.e.s.Gate("push", n)
 	if err := ctx.Err(); err != nil {
+		w.e.ctxFail()
 		w.e.tr.Emit(map[string]any{"e": "pushE", "n": n, "r": "ctx", "has": w.has()})
 		return err
 	}
